@@ -535,7 +535,7 @@ func TestLouvain(t *testing.T) {
 		g := dg[i/3]
 		return lvCase{G: graphFromMask(g.n, true, g.mask), Gamma: vk.F(gammas[i%3]), S1: uint64(i), S2: 11, Weighted: i%2 == 0, NegEdge: -1}
 	}, checkLouvain)
-	vk.Run(t, "louvain", vk.Opts{Quick: 6000, Thorough: 140000}, drawLouvain, checkLouvain)
+	vk.Run(t, "louvain", vk.Opts{Quick: 6000, Thorough: 100000}, drawLouvain, checkLouvain)
 }
 
 // ---- ModularizeMultiplex ------------------------------------------------------------
@@ -678,7 +678,7 @@ func checkLouvainMx(c lvMxCase) *vk.Failure {
 }
 
 func TestLouvainMultiplex(t *testing.T) {
-	vk.Run(t, "louvain-mx", vk.Opts{Quick: 6000, Thorough: 140000}, func(t *rapid.T) lvMxCase {
+	vk.Run(t, "louvain-mx", vk.Opts{Quick: 6000, Thorough: 100000}, func(t *rapid.T) lvMxCase {
 		c := lvMxCase{M: drawMx(t, 30, true, false)}
 		c.M.Labels, c.M.NilComms = nil, false
 		c.All = rapid.Bool().Draw(t, "all")
